@@ -252,9 +252,11 @@ def ssigned(e, cx):
     if t == "f":
         f = cx.ftype(cx.resolve(e["p"]))
         return scalar_type(cx.prog, f)[1]
-    if t in ("lit", "en", "slit"):
+    if t in ("lit", "en", "slit", "idx"):
+        # (the foreach index is an int, as in SystemVerilog: 'it <= i - 3' compares signed
+        # when the element is signed)
         return True
-    if t in ("ulit", "idx", "ps", "in", "inrl", "inlist", "dynref"):
+    if t in ("ulit", "ps", "in", "inrl", "inlist", "dynref"):
         return False
     if t == "bin":
         return ssigned(e["l"], cx) and ssigned(e["r"], cx)
@@ -297,7 +299,7 @@ def ev(e, cx, ctx=-1):
         return (v & mask(w), w, s)
     if t == "idx":
         v = cx.loop_index(e.get("d", 0))
-        return (v & mask(32), 32, False)
+        return (v & mask(32), 32, True)
     if t == "size":
         v = len(cx.value(cx.resolve(e["p"])))
         return (v & mask(32), 32, False)
